@@ -8,6 +8,7 @@ import (
 	"errors"
 	"net"
 	"os"
+	"strconv"
 	"sync"
 	"time"
 )
@@ -101,6 +102,14 @@ type watcher struct {
 	n    int
 	ch   chan struct{}
 }
+
+var defaultMaxEvents = func() int {
+	if v, err := strconv.Atoi(os.Getenv("VERIF_VNET_MAXEVENTS")); err == nil && v > 0 {
+		return v
+	}
+
+	return 300000
+}()
 
 // New creates a network; call inside the bubble.
 func New() *Net {
@@ -269,7 +278,7 @@ func (n *Net) send(from Addr, to string, data []byte) {
 	payloads := [][]byte{data}
 	maxEv := n.MaxEvents
 	if maxEv <= 0 {
-		maxEv = 20000
+		maxEv = defaultMaxEvents
 	}
 	if len(n.Tap) >= maxEv {
 		n.Stormed = true
